@@ -1007,6 +1007,14 @@ func litestream.(*Compactor).Compact(c, ctx, dstLevel) (res, err)
   loop 0 invariant it_idx[itr] == c06_start ==> minTXID == 0 && maxTXID == 0
   loop 0 invariant it_idx[itr] > c06_start ==> minTXID == fmin(item(itr, c06_start)) && minTXID <= maxTXID && (forall k int :: {item(itr, k)} c06_start <= k && k < it_idx[itr] ==> minTXID <= fmin(item(itr, k)) && fmax(item(itr, k)) <= maxTXID) && (exists k int :: {item(itr, k)} c06_start <= k && k < it_idx[itr] && fmax(item(itr, k)) == maxTXID)
 
+// The goroutine that streams the merged file into the upload pipe: the pipe is closed with exactly the
+// result of the merge, so a failed or truncated merge makes the upload fail instead of ending as a clean EOF.
+ghost c05_mergeErr Int
+func litestream.(*Compactor).Compact$2()
+  modifies $heap, $alloc, c05_mergeErr
+  at ltx.(*Compactor).Compact#1 set c05_mergeErr = $result0
+  at io.(*PipeWriter).CloseWithError#2 assert [C05.merge-error-reaches-upload] $recv == pw && $arg0 == c05_mergeErr
+
 // DB.MaxLTXFileInfo: the per-level max-file cache. A miss is filled with the maximum of the level listing
 // inside the same critical section as the lookup (one Lock, held across the listing, one Unlock at exit),
 // so a concurrent CacheSetter cannot be overwritten by a stale listing.
@@ -1186,6 +1194,18 @@ func litestream.(*DB).snapshotPosition(db, ctx) (p, err)
   at litestream.(*DB).snapshotWALEndOffset#1 reset swe_read = false
   at litestream.(*DB).Pos#1 reset pos_verifyErr = nil
   ensures [C02.snap-end] err == nil ==> p.walEndOffset >= 32 && p.pageSize != 0 && p.db == db
+
+// Catch-up of a reopened persistent hydration file (F12): the level-0 files after the saved TXID are applied in
+// listing order, each continuing where the previous one ended, and success means the target TXID was reached
+// (otherwise hydration stays incomplete and pages keep being served through the page index).
+func litestream.(*Hydrator).CatchUp(h, ctx, fromTXID, toTXID) (err)
+  requires h != nil && h.client != nil
+  assumes 0 <= fromTXID && fromTXID <= toTXID && toTXID < 9223372036854775807     // A-txid-range; the caller only catches up forwards
+  modifies $heap, $alloc, it_idx
+  at litestream.ReplicaClient.LTXFiles#1 assert [C18.catchup-from] $recv == h.client && $arg1 == 0 && $arg2 == fromTXID + 1
+  at litestream.(*Hydrator).ApplyLTX#1 assert [C18.catchup-contiguous] $arg1 == item(itr, it_idx[itr] - 1) && fmin($arg1) <= txid + 1 && fmax($arg1) <= toTXID
+  ensures [C18.catchup-complete] err == nil ==> txid == toTXID && (toTXID > fromTXID ==> h.txid == toTXID)
+  loop 0 invariant h == old(h) && h != nil && itr != nil && itOK(itr) && toTXID == old(toTXID) && fromTXID == old(fromTXID) && txid <= toTXID && (txid > fromTXID ==> h.txid == txid)
 
 // The page index built at open from the restore plan: every file of the plan is read in plan order, the
 // database size is the one of the last file, no page beyond it stays in the index (F10), and every page of a
